@@ -297,7 +297,11 @@ pub fn format_filesize(size: u64, modifier: &str) -> String {
     if let Some(cap) = FILE_SIZE_FORMAT_REGEX.captures(&modifier) {
         zeroes = cap
             .name("zeroes")
-            .map_or(-1, |m| m.as_str().parse::<i32>().unwrap());
+            .map_or(-1, |m| {
+                m.as_str()
+                    .parse::<i32>()
+                    .unwrap_or_else(|_| error_exit("Unknown file size modifier", modifier.as_str()))
+            });
         space = cap.name("space").map_or(false, |m| m.as_str() == " ");
         modifier = cap
             .name("units")
